@@ -35,9 +35,11 @@ static void havoc_ghosts(void)
    v_a = nondet_int(); v_b = nondet_int();
 }
 
-#define INFO(i)  item[2 * (i) + 1]
-#define DAT(i)   item[2 * (i)]
-#define KIDX(g)  key[2 * (g) + 1]
+#define LO32(x)  ((int)(unsigned int)((unsigned long long)(x) & 0xffffffffULL))
+#define HI32(x)  ((int)(unsigned int)((unsigned long long)(x) >> 32))
+#define INFO(i)  HI32(item[i])
+#define DAT(i)   LO32(item[i])
+#define KIDX(g)  HI32(key[g])
 #define END      (-themax - 1)
 #define SZ       (*thesize)
 #define NM       (*thenum)
@@ -45,7 +47,7 @@ static void havoc_ghosts(void)
 #define HEADC    (-(FF + 1))
 
 #define FRESH_SET (1 <= themax && themax <= CAP \
-   && __CPROVER_is_fresh(item, 2 * themax * sizeof(int)) && __CPROVER_is_fresh(key, 2 * themax * sizeof(int)) \
+   && __CPROVER_is_fresh(item, themax * sizeof(long long)) && __CPROVER_is_fresh(key, themax * sizeof(long long)) \
    && __CPROVER_is_fresh(rank, themax * sizeof(int)) \
    && __CPROVER_is_fresh(thesize, sizeof(int)) && __CPROVER_is_fresh(thenum, sizeof(int)) && __CPROVER_is_fresh(firstfree, sizeof(int)))
 #define S_OK       (0 <= NM && NM <= SZ && SZ <= themax)
@@ -55,26 +57,27 @@ static void havoc_ghosts(void)
 /* The conjuncts of INV as side-effect-free C functions (used in requires/ensures; no loops).  A function instead of
  * a macro evaluates every array cell once (nested macro text made symbolic execution explode). */
 typedef const int* cip;
-static int is_free(cip item, int sz, int i) { return 0 <= i && i < sz && item[2 * i + 1] < 0; }
-static int k_at(cip item, cip key, int sz, int nm, int g)
+typedef const long long* clp;
+static int is_free(clp item, int sz, int i) { return 0 <= i && i < sz && HI32(item[i]) < 0; }
+static int k_at(clp item, clp key, int sz, int nm, int g)
 {
    if(!(0 <= g && g < nm)) return 1;
-   int c = key[2 * g + 1];
-   return 0 <= c && c < sz && item[2 * c + 1] == g;
+   int c = HI32(key[g]);
+   return 0 <= c && c < sz && HI32(item[c]) == g;
 }
-static int u_at(cip item, cip key, int sz, int nm, int i)
+static int u_at(clp item, clp key, int sz, int nm, int i)
 {
    if(!(0 <= i && i < sz)) return 1;
-   int f = item[2 * i + 1];
+   int f = HI32(item[i]);
    if(f < 0) return 1;
-   return f < nm && key[2 * f + 1] == i;
+   return f < nm && HI32(key[f]) == i;
 }
 /* rank function: rank[c], except that cell x has rank c0 (x == -1: no exception) */
 static int rk(cip rank, int c, int x, int c0) { return c == x ? c0 : rank[c]; }
-static int r123_at(cip item, cip rank, int themax, int sz, int nm, int i, int x, int c0)
+static int r123_at(clp item, cip rank, int themax, int sz, int nm, int i, int x, int c0)
 {
    if(!is_free(item, sz, i)) return 1;
-   int f = item[2 * i + 1];
+   int f = HI32(item[i]);
    int r = rk(rank, i, x, c0);
    if(!(0 <= r && r < sz - nm)) return 0;                 /* R1 */
    if((f == -themax - 1) != (r == 0)) return 0;           /* R2 */
@@ -82,12 +85,12 @@ static int r123_at(cip item, cip rank, int themax, int sz, int nm, int i, int x,
    int nx = -(f + 1);                                     /* R3 */
    return is_free(item, sz, nx) && rk(rank, nx, x, c0) == r - 1;
 }
-static int r4_at(cip item, cip rank, int sz, int a, int b, int x, int c0)
+static int r4_at(clp item, cip rank, int sz, int a, int b, int x, int c0)
 {
    if(a == b || !is_free(item, sz, a) || !is_free(item, sz, b)) return 1;
    return rk(rank, a, x, c0) != rk(rank, b, x, c0);
 }
-static int r05(cip item, cip rank, int themax, int sz, int nm, int ff, int x, int c0)
+static int r05(clp item, cip rank, int themax, int sz, int nm, int ff, int x, int c0)
 {
    if((ff == -themax - 1) != (sz == nm)) return 0;        /* R0 */
    if(ff == -themax - 1) return 1;
@@ -131,7 +134,7 @@ __CPROVER_ensures(INV_GHOSTS(-1, 0))
 #endif
 
 #ifdef INST_create
-int w_create(int* item, int* key, int themax, int* thesize, int* thenum, int* firstfree, int* newidx, int usekey, const int* rank)
+int w_create(long long* item, long long* key, int themax, int* thesize, int* thenum, int* firstfree, int* newidx, int usekey, const int* rank)
 CREATE_REQUIRES
 __CPROVER_assigns(__CPROVER_object_whole(item), __CPROVER_object_whole(key), *thesize, *thenum, *firstfree, *newidx)
 CREATE_ENSURES
@@ -139,7 +142,7 @@ __CPROVER_ensures(__CPROVER_return_value == 1)
 ;
 void h_create(void)
 {
-   int* item; int* key; int themax; int* thesize; int* thenum; int* firstfree; int* newidx; int usekey; const int* rank;
+   long long* item; long long* key; int themax; int* thesize; int* thenum; int* firstfree; int* newidx; int usekey; const int* rank;
    havoc_ghosts();
    w_create(item, key, themax, thesize, thenum, firstfree, newidx, usekey, rank);
    CANARY();
@@ -147,7 +150,7 @@ void h_create(void)
 #endif
 
 #ifdef INST_add
-void w_add(int* item, int* key, int themax, int* thesize, int* thenum, int* firstfree, int* newidx, int usekey, int val, const int* rank)
+void w_add(long long* item, long long* key, int themax, int* thesize, int* thenum, int* firstfree, int* newidx, int usekey, int val, const int* rank)
 CREATE_REQUIRES
 __CPROVER_assigns(__CPROVER_object_whole(item), __CPROVER_object_whole(key), *thesize, *thenum, *firstfree, *newidx)
 CREATE_ENSURES
@@ -155,7 +158,7 @@ __CPROVER_ensures(DAT(*newidx) == val)
 ;
 void h_add(void)
 {
-   int* item; int* key; int themax; int* thesize; int* thenum; int* firstfree; int* newidx; int usekey; int val; const int* rank;
+   long long* item; long long* key; int themax; int* thesize; int* thenum; int* firstfree; int* newidx; int usekey; int val; const int* rank;
    havoc_ghosts();
    w_add(item, key, themax, thesize, thenum, firstfree, newidx, usekey, val, rank);
    CANARY();
@@ -168,7 +171,7 @@ void h_add(void)
  * number(key(n)) == n; for a cell kidx < size(): has(k) <=> the cell is live, and then key(number(k)) == k;
  * number(k) < 0 for a key that has been removed; [n] and [key(n)] are the same element; nothing is modified;
  * no exception for 0 <= k.idx < size(). */
-void w_lookup(int* item, int* key, int themax, int* thesize, int* thenum, int* firstfree, int n, int kidx,
+void w_lookup(long long* item, long long* key, int themax, int* thesize, int* thenum, int* firstfree, int n, int kidx,
               int* out_keyidx, int* out_num_of_key_n, int* out_num_of_k, int* out_has_k, int* out_has_n,
               int* out_same_elem, int* out_val_k, const int* rank)
 __CPROVER_requires(FRESH_SET && S_OK && ISNUM(n) && INCELL(kidx) && K_AT(n) && U_AT(kidx))
@@ -185,7 +188,7 @@ __CPROVER_ensures(SZ == __CPROVER_old(*thesize) && NM == __CPROVER_old(*thenum) 
 ;
 void h_lookup(void)
 {
-   int* item; int* key; int themax; int* thesize; int* thenum; int* firstfree; int n, kidx; const int* rank;
+   long long* item; long long* key; int themax; int* thesize; int* thenum; int* firstfree; int n, kidx; const int* rank;
    int* o1; int* o2; int* o3; int* o4; int* o5; int* o6; int* o7;
    havoc_ghosts();
    w_lookup(item, key, themax, thesize, thenum, firstfree, n, kidx, o1, o2, o3, o4, o5, o6, o7, rank);
@@ -200,7 +203,7 @@ void h_lookup(void)
  * size()); the element that had the LAST number gets number removenum, every other element keeps its number (documented
  * renumbering); every survivor keeps key and data; INV is preserved.  Post-state rank: the freed cell g_x gets rank g_c0. */
 #define HASNUM (0 <= removenum && removenum < g_n0)
-void w_remove1(int* item, int* key, int themax, int* thesize, int* thenum, int* firstfree, int removenum, int bykey, const int* rank)
+void w_remove1(long long* item, long long* key, int themax, int* thesize, int* thenum, int* firstfree, int removenum, int bykey, const int* rank)
 __CPROVER_requires(FRESH_SET && S_OK)
 __CPROVER_requires(INV_ALL)
 __CPROVER_requires(g_n0 == NM && g_s0 == SZ && g_c0 == SZ - NM && (!bykey || ISNUM(removenum)))
@@ -221,7 +224,7 @@ __CPROVER_ensures(!HASNUM || INV_GHOSTS(g_x, g_c0))
 ;
 void h_remove1(void)
 {
-   int* item; int* key; int themax; int* thesize; int* thenum; int* firstfree; int removenum, bykey; const int* rank;
+   long long* item; long long* key; int themax; int* thesize; int* thenum; int* firstfree; int removenum, bykey; const int* rank;
    havoc_ghosts();
    w_remove1(item, key, themax, thesize, thenum, firstfree, removenum, bykey, rank);
    CANARY();
